@@ -89,6 +89,30 @@ def tr_add_structure(fn):
             "  else (s, Some EAlreadyPresent).\n")
 
 
+def tr_maps_all_pins(fn):
+    t = [ast.unparse(x) for x in strip_doc(fn.body)]
+    want = ["for (st, pin) in self.free_pins:\n    if (st, pin) in self.pin_mapping.values():\n        continue\n"
+            "    if pin in self.pin_mapping:\n        raise Exception('Pins double naming present, cannot map authomatically')\n"
+            "    self.pin_mapping[pin] = (st, pin)"]
+    want2 = [want[0].replace("for (st, pin) in", "for st, pin in")]
+    if t != want and t != want2:
+        raise Unsupported("Solver.maps_all_pins changed: " + " ; ".join(t)[:300])
+    # the pin itself is the external name (auto_name); a raise ends the loop with what has been mapped so far
+    return ("Definition maps_all_pins_src (s : wstate) : wstate * option err :=\n"
+            "  let '(m', e) := fold_left (fun '(m, e) x =>\n"
+            "        match e with\n"
+            "        | Some _ => (m, e)\n"
+            "        | None =>\n"
+            "            if existsb (fun en : nat * spin => spin_eqb (snd en) x) m then (m, None)\n"
+            "            else match dget Nat.eqb (auto_name x) m with\n"
+            "                 | Some _ => (m, Some ENameClash)\n"
+            "                 | None => (dset Nat.eqb (auto_name x) x m, None)\n"
+            "                 end\n"
+            "        end) (w_free s) (w_map s, None) in\n"
+            "  ({| w_structs := w_structs s; w_store := w_store s; w_conns := w_conns s; w_clist := w_clist s;\n"
+            "      w_free := w_free s; w_map := m' |}, e).\n")
+
+
 def translate(repo: str) -> str:
     srcs = {}
     for f in ("structure.py", "sol.py"):
@@ -104,6 +128,7 @@ def translate(repo: str) -> str:
     out.append(tr_add_conn(find_fn(st, "Structure", "add_conn")))
     out.append(tr_cut_connections(find_fn(st, "Structure", "cut_connections")))
     out.append(tr_add_structure(find_fn(ast.parse(srcs["sol.py"]), "Solver", "add_structure")))
+    out.append(tr_maps_all_pins(find_fn(ast.parse(srcs["sol.py"]), "Solver", "maps_all_pins")))
     return "\n".join(out) + "\n"
 
 
